@@ -278,9 +278,25 @@ def resubmit_cb(name, exname, fut):
     run_op({"op": "submit", "ex": exname, "task": {"k": "ok", "x": -1}, "id": "cb.%s.%d" % (name, CB_COUNT[0]), "from_callback": True}, Ctx(97))
 
 
-def register_future(name, fut, raising_cb=False, resubmit=None, slow_cb=None):
+CHAIN_COUNT = [0]
+
+
+def chain_cb(name, exname, fut):
+    """The joblib dispatch pattern: whatever the outcome of this future, its done-callback submits the next
+    task to the same executor (from whichever thread resolves the future: manager, feeder, submitter)."""
+    with FUT_LOCK:
+        CHAIN_COUNT[0] += 1
+        n = CHAIN_COUNT[0]
+    if n > 40:
+        return
+    run_op({"op": "submit", "ex": exname, "task": {"k": "ok", "x": -2}, "id": "chain.%s.%d" % (name, n), "from_callback": True}, Ctx(96))
+
+
+def register_future(name, fut, raising_cb=False, resubmit=None, slow_cb=None, chain=None):
     with FUT_LOCK:
         FUTS[name] = fut
+    if chain:
+        fut.add_done_callback(functools.partial(chain_cb, name, chain))
     if slow_cb:
 
         def slow(f, d=slow_cb):
@@ -389,7 +405,7 @@ def op_submit(op, oid, ctx):
     log("submit_call", oid=oid, ex=op["ex"], exid=id(ex), fut=fname, tid=tid, spec=spec, exp=exp,
         pickler=_pickler_name())
     fut = ex.submit(lv_tasks.run, spec, tid, *lv_tasks.make_args(spec))
-    register_future(fname, fut, raising_cb=bool(op.get("raising_cb")), resubmit=(op["ex"] if op.get("resubmit_on_break") else None), slow_cb=op.get("slow_cb"))
+    register_future(fname, fut, raising_cb=bool(op.get("raising_cb")), resubmit=(op["ex"] if op.get("resubmit_on_break") else None), slow_cb=op.get("slow_cb"), chain=(op["ex"] if op.get("chain_cb") else None))
     remember(op["ex"], ex)
     return {"fut": fname}
 
@@ -442,15 +458,26 @@ def op_wait(op, oid, ctx):
         with FUT_LOCK:
             names = list(FUTS)
     n = 0
-    for nm in names:
-        f = FUTS.get(nm)
-        if f is None:
-            continue
-        try:
-            f.exception(timeout=op.get("timeout"))
-        except BaseException:  # cancelled / timeout: terminal state is logged by the callback
-            pass
-        n += 1
+    seen = set()
+    while True:
+        for nm in names:
+            if nm in seen:
+                continue
+            seen.add(nm)
+            f = FUTS.get(nm)
+            if f is None:
+                continue
+            try:
+                f.exception(timeout=op.get("timeout"))
+            except BaseException:  # cancelled / timeout: terminal state is logged by the callback
+                pass
+            n += 1
+        if op.get("futs", "all") != "all":
+            break
+        with FUT_LOCK:  # futures submitted meanwhile by done-callbacks (chain_cb)
+            names = [x for x in FUTS if x not in seen]
+        if not names:
+            break
     return {"n": n}
 
 
